@@ -307,6 +307,78 @@ def loglikError {μ} [Inhabited μ] [MaskVal μ] (m : Tensor μ) (fx y : Tensor 
     (fun b => { shape := b.shape, data := b.data.map fun v => ((FVal.mulInt s v).getD (.fin 0)) })
     id m () y
 
+/-! ## the table of masking sites under `direct/nn` -/
+
+inductive Branch where
+  | data | const (v : FVal)
+deriving Repr, DecidableEq
+
+/-- a `torch.where(<mask> ==/!= lit, thenB, elseB)` as read from the source -/
+structure WhereSite where
+  predEq : Bool
+  predLit : Int
+  thenB : Branch
+  elseB : Branch
+deriving Repr, DecidableEq
+
+def Branch.pick (b : Branch) (kv : FVal) : FVal :=
+  match b with
+  | .data => kv
+  | .const v => v
+
+/-- the elementwise function such a site computes -/
+def WhereSite.kernel {μ} [MaskVal μ] (w : WhereSite) (mv : μ) (kv : FVal) : FVal :=
+  let c := MaskVal.eqConst mv w.predLit
+  if (if w.predEq then c else !c) then w.thenB.pick kv else w.elseB.pick kv
+
+/-- the only accepted `where` form: `mask == 0 ? +0 : data` -/
+def WhereSite.wf (w : WhereSite) : Bool :=
+  w.predEq && w.predLit == 0 && w.thenB == .const .posZero && w.elseB == .data
+
+inductive SiteForm where
+  | whereForm (w : WhereSite)
+  | applyMask (complement : Bool)       -- `apply_mask(x, mask)` / `apply_mask(x, ~mask)`: the verified function
+  | operatorCall (complement : Bool)    -- call of a masked operator method (`_forward_operator(…, ~mask)` …)
+  | flagged (what : String)             -- multiplication by the mask, `masked_fill`, unrecognised `where`
+deriving Repr, DecidableEq
+
+structure Site where
+  file : String
+  func : String
+  form : SiteForm
+  operand : String
+  mask : String
+  zeroDtypeOf : String
+deriving Repr, DecidableEq
+
+/-- well-formed site: exact `where` form with a zero constant of an explicit tensor dtype, or a call of
+the verified `apply_mask` / masked operators; anything else (products, `masked_fill`) is flagged. -/
+def Site.wf (s : Site) : Bool :=
+  match s.form with
+  | .whereForm w => w.wf && s.zeroDtypeOf != ""
+  | .applyMask _ => true
+  | .operatorCall _ => true
+  | .flagged _ => false
+
+/-- functions whose masking sites the oracle exercises on the real module (non-interference /
+exact zeros), and functions covered structurally only (engine training iterations: their sites are
+calls of the verified `apply_mask` / `_forward_operator`) -/
+def oracleCovered : List String :=
+  ["RIMBlock.forward", "ConjGrad._A_star_op", "ConjGrad._A_star_A_op", "CrossDomainNetwork._forward_operator",
+   "CrossDomainNetwork._backward_operator", "IterDualNet._forward_operator", "IterDualNet._backward_operator",
+   "JointICNet._forward_operator", "JointICNet._backward_operator", "JointICNet.forward", "KIKINet.forward",
+   "LPDNet._forward_operator", "LPDNet._backward_operator", "MRIModelEngine._forward_operator",
+   "MRIModelEngine._backward_operator", "RecurrentVarNetBlock.forward", "MRILogLikelihood.forward",
+   "EndToEndVarNetBlock.forward", "MRIVarSplitNet.forward", "VSharpNet.forward", "VSharpNet3D.forward",
+   "VSharpNetEngine.forward_function", "VSharpNet3DEngine.forward_function"]
+
+def structuralOnly : List String :=
+  ["SSLMRIModelEngine._do_iteration", "JSSLMRIModelEngine._do_iteration", "VSharpNetSSLEngine._do_iteration",
+   "VSharpNetJSSLEngine._do_iteration", "VSharpNetEngine._do_iteration", "VSharpNet3DEngine._do_iteration",
+   "MRIModelEngine._do_iteration", "MRIModelEngine.reconstruct_volumes"]
+
+def Site.accounted (s : Site) : Bool := oracleCovered.contains s.func || structuralOnly.contains s.func
+
 /-- why the `where` form matters: the multiplicative variant `kspace * mask` (mask 0/1) -/
 def mulMask (mv : Int) (kv : FVal) : Option FVal := FVal.mulInt mv kv
 
